@@ -14,6 +14,26 @@ CHECKS = {
        "boundary by the same function of the same integer corner; that obligation is checked on the real code per case. "
        "Block shape (_auto_block_shape) is read from the code and passed to the model (theorems hold for every s).",
   tech="Lean 4 proof (induction/omega over integer grids) + differential correspondence run", ref='7 C06'),
+
+ 'C16': dict(
+  text="Proof (Lean 4): the repaired covers_bounds predicate accepts iff the source footprint is contained in the reference "
+       "footprint on each axis (covers_iff_contains), overhang on any side by any amount is rejected, the same grid is accepted, "
+       "a checked counterexample for the originally coded predicate (D2), and the orientation/CRS decision table of "
+       "same_orientation_crs (decide over all 32 rows). Tied to the code by constructing RasterFuse/RasterCompare on ~300 (quick) "
+       "/ 6000 (thorough) generated placements (inside, flush, overhang by 1 unit..many pixels per side; both resolution orders; "
+       "dyadic/decimal; south-up storage) and by driving the real same_orientation_crs through all table rows.",
+  note="Cross-CRS footprints are not modelled (WarpedVRT geometry is GDAL's); float noise of flush placements in decimal "
+       "geometry is absorbed by the 1e-6 px tolerance of the repaired predicate, which the exact model ignores.",
+  tech="Lean 4 proof (linear integer arithmetic, decide over a finite table) + differential correspondence run", ref='7 C16'),
+ 'C20': dict(
+  text="Proof (Lean 4): for every integer window with non-negative size the boundless read succeeds (read_total) and returns "
+       "the image pixel at its own location where the window overlaps the image and nodata elsewhere (read_spec), with the "
+       "window's geo-referencing (read_transform); writes store the block's pixels on window ∩ dataset and leave the rest "
+       "(write_spec), write-then-read round trip, and the corrected block written by fuse always contains its clipped output "
+       "window (fuse_write_contained_*); checked counterexample for the originally coded window logic (D3). Tied to the code by "
+       "~3500 reads (exhaustive per-axis windows, 4 dtype/nodata/mask/band variants) and ~200 writes compared pixel by pixel.",
+  note="GDAL read/write of an in-range window is trusted to transfer pixels faithfully; dtype conversion on write belongs to C13.",
+  tech="Lean 4 proof (omega over integer windows, list extensionality) + exhaustive small-window differential run", ref='7 C20'),
 }
 NA_REASON = 'check not built yet in this round (planned: see DESIGN.md section 7); nothing is claimed for it'
 props = [json.loads(l)['id'] for l in open(V / 'properties.jsonl')]
